@@ -24,6 +24,8 @@ From Coq Require Import NArith List Bool PeanoNat String.
 Require Import Model.Base Model.Ir Model.Preprocess Spec.LexSpec Proofs.PreprocessProofs.
 Require Import Model.Labels Gen.LabelSites Proofs.LabelsProofs.
 Require Model.Ast Model.Desugar Spec.ExpandSpec Proofs.DesugarMetas Proofs.LabelsDesugar.
+Require Import Model.Ssa Spec.MetaSpec.
+Require Proofs.LabelsSsa Proofs.LabelsPipeline Model.Lift Spec.CfgSpec.
 Import ListNotations.
 
 (* --- (1) the pre-processor keeps every offset ------------------------------ *)
@@ -132,6 +134,84 @@ Theorem C04_labels_wellformed_through_desugaring :
 Proof. exact Proofs.LabelsDesugar.labels_wellformed_through_desugaring. Qed.
 Print Assumptions C04_labels_wellformed_through_desugaring.
 
+(* --- (2b) provenance through the SSA construction (mirror Model.Ssa, checked
+   against the real into_ssa by C14's engine) ----------------------------------
+   The IR mirror keeps the meta of every STATEMENT (not of expressions).  Block i
+   of the SSA form is: k inserted phi statements, each with `Meta::default()`
+   (0..0, no file: no label can come from it, C04_phi_statement_gets_no_label)
+   and of kind "substitution", followed by statements with exactly the metas and
+   kinds of block i of the input, in the same order — for every graph, frontier
+   and children table. *)
+Theorem C04_ssa_blocks_from_input : forall frontier children c c',
+  into_ssa frontier children c = SOk c' ->
+  Forall2 (fun b b' => exists k,
+             map tag (b_stmts b') = repeat (default_meta, KSubst) k ++ map tag (b_stmts b))
+          (c_blocks c) (c_blocks c').
+Proof. exact Proofs.LabelsSsa.ssa_blocks_from_input. Qed.
+Print Assumptions C04_ssa_blocks_from_input.
+
+(* ssa_metas: every statement meta of the SSA form is a statement meta of the
+   graph it was built from, or Meta::default() *)
+Theorem C04_ssa_metas_from_input : forall frontier children c c',
+  into_ssa frontier children c = SOk c' ->
+  forall m, In m (cfg_stmt_metas c') -> In m (cfg_stmt_metas c) \/ m = default_meta.
+Proof. exact Proofs.LabelsSsa.ssa_metas_from_input. Qed.
+Print Assumptions C04_ssa_metas_from_input.
+
+(* and no statement loses its location *)
+Theorem C04_ssa_keeps_input_metas : forall frontier children c c',
+  into_ssa frontier children c = SOk c' ->
+  forall m, In m (cfg_stmt_metas c) -> In m (cfg_stmt_metas c').
+Proof. exact Proofs.LabelsSsa.ssa_keeps_input_metas. Qed.
+Print Assumptions C04_ssa_keeps_input_metas.
+
+(* The end-to-end statement with the desugarer's AND the SSA construction's
+   provenance proved.  Hypothesis 3 is what is left: it speaks about the graph
+   BEFORE SSA (the output of lifting) — the lifting mirror Model.Lift works on
+   skeletons without metas, see C04_lift_nodes_are_source_nodes; the meta copy
+   `Meta::from(&ast::Meta)` of ir.rs is observed on every run by the provenance
+   clause of the engine.  Scope: constructors whose nodes are STATEMENTS of the SSA
+   form (hypothesis 6), since the IR mirror has no expression metas. *)
+Theorem C04_labels_wellformed_through_desugaring_and_ssa :
+  forall (P : N -> N -> Prop) env lib body body' frontier children c c' ctor ls l,
+    Forall (fun m => P (Model.Ast.m_start m) (Model.Ast.m_end m)) (Spec.ExpandSpec.stmt_metas body) ->
+    Model.Desugar.desugar_template env lib body = Model.Desugar.DOk body' ->
+    (forall m, In m (cfg_stmt_metas c) ->
+       In m (map Proofs.LabelsDesugar.ir_meta_of (Spec.ExpandSpec.stmt_metas body')) \/ (m_start m = 0%N /\ m_end m = 0%N)) ->
+    into_ssa frontier children c = SOk c' ->
+    P 0%N 0%N ->
+    (forall m, In m (nodes_of ctor) -> In m (cfg_stmt_metas c')) ->
+    (forall r, In r (parser_ranges_of ctor) -> P (fst r) (snd r)) ->
+    labels_of (sources_of ctor) = Ok ls -> In l ls -> P (l_start l) (l_end l).
+Proof. exact Proofs.LabelsPipeline.labels_wellformed_through_desugaring_and_ssa. Qed.
+Print Assumptions C04_labels_wellformed_through_desugaring_and_ssa.
+
+(* What the lifting mirror (C12's Model.Lift, on statement skeletons: a leaf
+   statement / a condition is an identity, metas are abstracted away) says about
+   locations: the nodes of the lifted graph are exactly the statements and
+   conditions of the source body, each once, in source order — lifting neither
+   drops, duplicates nor invents a node.  (C12_every_item_exactly_once, cited.) *)
+Theorem C04_lift_nodes_are_source_nodes : forall body g,
+  Model.Lift.lift body = Ok g ->
+  concat (map (fun b => map Spec.CfgSpec.item_key (Model.Lift.b_items b)) g)
+  = map fst (Spec.CfgSpec.nesting 0 body).
+Proof. exact Proofs.LabelsPipeline.lift_nodes_are_source_nodes. Qed.
+Print Assumptions C04_lift_nodes_are_source_nodes.
+
+(* A label whose range is CREATED by modelled code (not inherited from a node):
+   the unclosed-comment error is valid with no hypothesis about the parser — one
+   primary label, in the file being parsed, the two bytes of the opener, inside
+   the ORIGINAL text, start <= end, on scalar boundaries. *)
+Theorem C04_unclosed_comment_label_valid : forall s o file ls l,
+  preprocess s = Err (unclosed o) ->
+  labels_of (sources_of (CUnclosedComment file o)) = Ok ls -> In l ls ->
+  ls = [l] /\ l_primary l = true /\ l_file l = file /\
+  l_start l = N.of_nat o /\ l_end l = N.of_nat (o + 2) /\ (l_start l <= l_end l)%N /\
+  boundary s o /\ boundary s (o + 2) /\ (o + 2 <= text_bytes s)%nat /\
+  scalar_at s o 47%N /\ scalar_at s (o + 1) 42%N.
+Proof. exact Proofs.LabelsPipeline.unclosed_comment_label_valid. Qed.
+Print Assumptions C04_unclosed_comment_label_valid.
+
 Theorem C04_synthesised_statements_have_no_file : forall c,
   guarded_constructor c = true ->
   (forall m, In m (nodes_of c) -> m_file m = None) ->
@@ -238,3 +318,35 @@ Example C04_example_original_text_matters :
   location [47; 42; 10; 42; 47; 120]%N 5 = Some (2, 3)%nat /\
   location [32; 32; 32; 32; 32; 120]%N 5 = Some (1, 6)%nat.
 Proof. repeat split; reflexivity. Qed.
+
+(* into_ssa succeeds and inserts a phi: `x = 1; if (..) {x = 2} else {x = 3}; return x`
+   as four blocks (frontier and dominator-tree children of that diamond).  The
+   join block gets ONE statement with the default meta in front of its `return`,
+   whose meta (40..48 of file 0) is unchanged; all other metas are unchanged. *)
+Definition C04_ex_x : vname := {| vn_name := [120%N]; vn_suffix := None; vn_version := None |}.
+Definition C04_ex_m (a b : N) : meta := {| m_start := a; m_end := b; m_file := Some 0%N |}.
+Definition C04_ex_assign (a b : N) (z : Z) : stmt :=
+  SSubst (C04_ex_m a b) C04_ex_x OpVar (ENum z know0) None (Some TLocal).
+Definition C04_ex_cfg : cfg :=
+  {| c_kind := KFunction; c_params := []; c_decls := [(C04_ex_x, TLocal)];
+     c_blocks := [
+       {| b_index := 0; b_depth := 0; b_preds := []; b_succs := [1; 2]%N;
+          b_stmts := [C04_ex_assign 0 5 1; SIf (C04_ex_m 6 39) (ENum 1 know0) 1 (Some 2%N)] |};
+       {| b_index := 1; b_depth := 0; b_preds := [0%N]; b_succs := [3%N]; b_stmts := [C04_ex_assign 14 19 2] |};
+       {| b_index := 2; b_depth := 0; b_preds := [0%N]; b_succs := [3%N]; b_stmts := [C04_ex_assign 29 34 3] |};
+       {| b_index := 3; b_depth := 0; b_preds := [1; 2]%N; b_succs := [];
+          b_stmts := [SRet (C04_ex_m 40 48) (EVar C04_ex_x know0)] |} ] |}.
+Example C04_example_ssa_inserts_a_fileless_phi :
+  match into_ssa [[]; [3%N]; [3%N]; []] [[1; 2; 3]%N; []; []; []] C04_ex_cfg with
+  | SOk c' => map (fun b => map tag (b_stmts b)) (c_blocks c')
+  | _ => []
+  end =
+  [ [(C04_ex_m 0 5, KSubst); (C04_ex_m 6 39, KIf)]; [(C04_ex_m 14 19, KSubst)]; [(C04_ex_m 29 34, KSubst)];
+    [(default_meta, KSubst); (C04_ex_m 40 48, KRet)] ].
+Proof. vm_compute. reflexivity. Qed.
+
+(* the unclosed-comment label of "a /*": bytes 2..4 *)
+Example C04_example_unclosed_label :
+  preprocess [97; 32; 47; 42]%N = Err (unclosed 2) /\
+  labels_of (sources_of (CUnclosedComment 0 2)) = Ok [mk true 0 2 4].
+Proof. split; reflexivity. Qed.
